@@ -28,6 +28,7 @@ VKIND = 'trackers::visual_sort::metric::VisualSortMetricType'
 
 
 def run(ctx):
+    _ownership(ctx)
     _wiring(ctx)
     ctx.rule('R12.1', 'gate polarity of the appearance path')
     ctx.rule('R12.2', 'use thresholds in metric(); collect thresholds in optimize()')
@@ -290,3 +291,10 @@ def _wiring(ctx):
     import wiring
     ctx.rule('R12.6', 'configuration plumbing: same-named fields / parameters / setters / call arguments are not crossed')
     ctx.floor('R12.6', wiring.run(ctx, 'R12.6', {'visual_kind', 'visual_minimal_track_length', 'visual_minimal_area', 'visual_minimal_quality_use', 'visual_minimal_own_area_percentage_use', 'visual_min_votes', 'max_allowed_feature_distance', 'min_winner_feature_votes', 'max_distance', 'min_votes'}), 21)
+
+
+def _ownership(ctx):
+    """who-may-write rows of rules/ownership.py that concern this property"""
+    import ownership
+    ctx.rule('R12.8', 'who-may-write: state this property depends on is changed only by its owners (rules/ownership.py)')
+    ctx.floor('R12.8', ownership.run(ctx, 'R12.8', 'C12'), 3)
